@@ -9,13 +9,13 @@ CONFIG = {
     'C01': dict(streams=[('td_class', 480), ('td_wf', 1040), ('td_coarse', 360)], keep='om'),
     'C02': dict(streams=[('td_exact', 880), ('td_wf', 480)], keep='ov'),
     'C03': dict(streams=[('bu_wf', 1040), ('mixed_wf', 360)], keep='ovm'),
-    'C04': dict(streams=[('bu_wf', 1200), ('mixed_wf', 160)], keep='ov'),
+    'C04': dict(streams=[('bu_wf', 1120), ('mixed_wf', 160), ('newreq', 160)], keep='ov'),
     'C05': dict(streams=[('inj_hidden', 1200), ('siblings', 240), ('td_wf', 160)], keep='om'),
     'C06': dict(streams=[('inj_overlap', 1200), ('td_wf', 160)], keep='om'),
     'C07': dict(streams=[('inj_cycle', 1200)], keep='ov'),
     'C08': dict(streams=[('td_wf', 640), ('bu_wf', 400), ('multi', 80)], keep='od'),
     'C09': dict(streams=[('td_coarse', 880), ('bu_wf', 320)], keep='dv'),
-    'C16': dict(streams=[('td_wf', 240), ('bu_wf', 240), ('mixed_wf', 120)], keep='oevdm', two_process=True),
+    'C16': dict(streams=[('td_wf', 240), ('bu_wf', 240), ('mixed_wf', 120), ('newreq', 160)], keep='oevdm', two_process=True),
     'C17': dict(streams=[('td_wf', 480), ('bu_wf', 480), ('fail_wf', 240), ('panic', 160), ('failstamp', 160)], keep='v', extra='tracker'),
     'C18': dict(streams=[('fail_wf', 800), ('fail_bu', 500), ('fail_mixed', 300)], keep='eov'),
     'C19': dict(streams=[('panic', 880), ('inj_hidden', 200), ('inj_overlap', 200), ('inj_cycle', 200)], keep='od'),
@@ -34,6 +34,9 @@ def make_case(rng, stream, big=False):
     if stream == 'siblings':
         p, steps = P.gen_sibling_program(rng)
         return p, steps, norm_meta({}, 'td')
+    if stream == 'newreq':
+        p, steps, meta = P.gen_newreq_program(rng)
+        return p, steps, norm_meta(meta, 'mixed')
     if stream == 'multi':
         p = P.gen_multi_program(rng)
         steps = [['E', '0', '1'], ['S', '1', 'q', '0'], ['E', '0', '2'], ['S', '1', 'q', '0'], ['S', '1', 'q', '0']]
